@@ -324,6 +324,11 @@ def run(chk):
             return False, "the fallback must be exactly one to_shared()", [], b.span
         return True, "", [ts[0].loc]
     chk.ob("C19.R4:ambient-buffering", "values buffered in the ambient context are downcast or shared, never parsed or formatted", tlv_no_reinterpretation)
+    # a value only survives buffering if it is buffered at all: the frame construction rules of the thread-local context (every pushed pair
+    # is inserted, on every path, into the snapshot that becomes the frame)
+    if not getattr(chk, "_overlay", None):
+        from . import c03
+        c03.thread_local_rules(chk, P, "C19.tl")
 
     def owned_conversions():
         out = []
